@@ -23,7 +23,7 @@ F = ["commonroad/common/writer/file_writer_xml.py:*XMLNode.*", "commonroad/commo
 
 
 def _mk(name, regime="normal", tier="quick", precisions=(1, 4, 12)):
-    @obligation("C01", f"roundtrip.{name}.{regime}" + ("" if tier == "quick" else ".all-precisions"), tier=tier, functions=F,
+    @obligation("C01", f"roundtrip.{name}.{regime}" + ("" if len(precisions) <= 3 else ".all-precisions"), tier=tier, functions=F,
                 max_paths={"quick": 3000, "thorough": 20000},
                 bounds=f"skeleton '{name}', all numeric / boolean leaves symbolic ({regime} magnitudes), decimal precision in {list(precisions)}")
     def ob(V):
@@ -44,6 +44,10 @@ for _n in ("lanelets", "static.rectangle", "static.polygon", "dynamic.trajectory
     _mk(_n, "tiny")
 for _n in ("lanelets", "static.rectangle", "dynamic.trajectory.KS", "planning.rectangle"):
     _mk(_n, "normal", "thorough", tuple(range(1, 13)))
+_QUICK_TINY = ("lanelets", "static.rectangle", "static.polygon", "dynamic.trajectory.KS", "dynamic.uncertain", "planning.rectangle", "signs-lights")
+for _n in xmlrt.SKELETONS:
+    if _n not in _QUICK_TINY:
+        _mk(_n, "tiny", "thorough")
 
 
 @obligation("C01", "roundtrip.writer-among-other-writers", functions=F + ["commonroad/common/writer/file_writer_xml.py:XMLFileWriter.write_to_file",
